@@ -1200,7 +1200,7 @@ INST_TRACE_INVARIANTS = ['OneSlave', 'MasterOnlyNeverSlave', 'ParentQualified']
 
 def _split_runs(lines):
     """[(first line index, last line index exclusive)] of the runs of a recorded trace (a run starts at a reset line)"""
-    starts = [i for i, l in enumerate(lines) if l.startswith('{"e":"reset"') or '"e":"reset"' in l[:40]]
+    starts = [i for i, l in enumerate(lines) if '"e":"reset"' in l]
     return [(a, b) for a, b in zip(starts, starts[1:] + [len(lines)])]
 
 
